@@ -50,6 +50,35 @@ Proof.
   - destruct (N.ltb_spec 65535 b); [discriminate|]. injection H as <-. cbn. unfold u32_ok in *. lia.
 Qed.
 
+Lemma octets_ok_true : forall w a m, wf_prefix w a m -> octets_ok w a m = true.
+Proof. intros w a m [_ [_ H]]. unfold octets_ok. rewrite H. reflexivity. Qed.
+
+Lemma wf_prefix_4 : forall a m, wf_prefix 4 a m -> a < 4294967296 /\ m <= 32.
+Proof. intros a m [H1 [H2 _]]. change (256 ^ 4) with 4294967296 in H1. lia. Qed.
+Lemma wf_prefix_16 : forall a m, wf_prefix 16 a m -> a < 2 ^ 128 /\ m <= 128.
+Proof. intros a m [H1 [H2 _]]. change (256 ^ 16) with (2 ^ 128) in H1. lia. Qed.
+
+Lemma labels_wf : forall ls m, existsb (fun l => 1048575 <? l) ls = false -> Nat.eqb (length ls) 0 = false ->
+  (255 <? 24 * N.of_nat (length ls) + m) = false -> wf_labels ls m.
+Proof.
+  intros ls m Hr Hne Hb. repeat split.
+  - destruct ls; [discriminate|]. discriminate.
+  - apply Forall_forall. intros x Hx. destruct (N.ltb_spec 1048575 x) as [Hgt|]; [|lia].
+    exfalso. assert (E : existsb (fun l => 1048575 <? l) ls = true).
+    { apply existsb_exists. exists x. split; [exact Hx|]. lia. }
+    rewrite E in Hr. discriminate.
+  - lia.
+Qed.
+
+Lemma wf_prefix_intro : forall w a m, a < 256 ^ w -> m <= 8 * w -> octets_ok w a m = true -> wf_prefix w a m.
+Proof. intros w a m Ha Hm Ho. unfold octets_ok in Ho. apply N.eqb_eq in Ho. repeat split; assumption. Qed.
+
+(* the five guards of the labeled / VPN arms *)
+Lemma guards_inv : forall (b1 b2 b3 b4 b5 : bool), b1 || b2 || b3 || b4 || negb b5 = false ->
+  b1 = false /\ b2 = false /\ b3 = false /\ b4 = false /\ b5 = true.
+Proof. intros [] [] [] [] []; cbn; intros H; try discriminate; repeat split; reflexivity. Qed.
+
+
 Section NlriProofs.
   Variable v6p : N -> list N.
   Variable v6r : list N -> option N.
@@ -58,14 +87,6 @@ Section NlriProofs.
      address holds no '/', and a parsed address is a 128-bit value *)
   Definition v6_noslash : Prop := forall a, a < 2 ^ 128 -> existsb (fun c => c =? SLASH) (v6p a) = false.
   Definition v6_range : Prop := forall s a, v6r s = Some a -> a < 2 ^ 128.
-
-  Lemma octets_ok_true : forall w a m, wf_prefix w a m -> octets_ok w a m = true.
-  Proof. intros w a m [_ [_ H]]. unfold octets_ok. rewrite H. reflexivity. Qed.
-
-  Lemma wf_prefix_4 : forall a m, wf_prefix 4 a m -> a < 4294967296 /\ m <= 32.
-  Proof. intros a m [H1 [H2 _]]. change (256 ^ 4) with 4294967296 in H1. lia. Qed.
-  Lemma wf_prefix_16 : forall a m, wf_prefix 16 a m -> a < 2 ^ 128 /\ m <= 128.
-  Proof. intros a m [H1 [H2 _]]. change (256 ^ 16) with (2 ^ 128) in H1. lia. Qed.
 
   Theorem nlri_roundtrip : forall n, v6_contract v6p v6r -> v6_noslash -> wf_nlri n ->
     net_from_api v6r (nlri_to_api v6p n) = Some n.
@@ -97,26 +118,6 @@ Section NlriProofs.
       destruct ls as [|l ls]; [contradiction|]. cbn [length Nat.eqb orb negb].
       destruct (N.ltb_spec 255 (24 * N.of_nat (S (length ls)) + 64 + m)); [cbn [length] in Hb; lia|]. reflexivity.
   Qed.
-
-  Lemma labels_wf : forall ls m, existsb (fun l => 1048575 <? l) ls = false -> Nat.eqb (length ls) 0 = false ->
-    (255 <? 24 * N.of_nat (length ls) + m) = false -> wf_labels ls m.
-  Proof.
-    intros ls m Hr Hne Hb. repeat split.
-    - destruct ls; [discriminate|]. discriminate.
-    - apply Forall_forall. intros x Hx. destruct (N.ltb_spec 1048575 x) as [Hgt|]; [|lia].
-      exfalso. assert (E : existsb (fun l => 1048575 <? l) ls = true).
-      { apply existsb_exists. exists x. split; [exact Hx|]. lia. }
-      rewrite E in Hr. discriminate.
-    - lia.
-  Qed.
-
-  Lemma wf_prefix_intro : forall w a m, a < 256 ^ w -> m <= 8 * w -> octets_ok w a m = true -> wf_prefix w a m.
-  Proof. intros w a m Ha Hm Ho. unfold octets_ok in Ho. apply N.eqb_eq in Ho. repeat split; assumption. Qed.
-
-  (* the five guards of the labeled / VPN arms *)
-  Lemma guards_inv : forall (b1 b2 b3 b4 b5 : bool), b1 || b2 || b3 || b4 || negb b5 = false ->
-    b1 = false /\ b2 = false /\ b3 = false /\ b4 = false /\ b5 = true.
-  Proof. intros [] [] [] [] []; cbn; intros H; try discriminate; repeat split; reflexivity. Qed.
 
   Theorem net_from_api_wf : forall x n, v6_range -> api_nlri_in_range x -> net_from_api v6r x = Some n -> wf_nlri n.
   Proof.
